@@ -63,6 +63,14 @@ pub fn nopanic<T>(what: &str, f: impl FnOnce() -> T) -> Result<T, Fail> {
     catch(f).map_err(|p| Fail { oracle: p.class(), detail: format!("{what}: panic at {}: {}", p.loc, p.msg) })
 }
 
+// ---- allocation tracking (fed by the global allocator in main.rs) ---------------------------
+static MAX_ALLOC: std::sync::atomic::AtomicUsize = std::sync::atomic::AtomicUsize::new(0);
+#[inline]
+pub fn note_alloc(n: usize) { if n > MAX_ALLOC.load(Ordering::Relaxed) { MAX_ALLOC.fetch_max(n, Ordering::Relaxed); } }
+/// Largest single allocation request (bytes) since the last reset, process-wide.
+pub fn max_alloc() -> usize { MAX_ALLOC.load(Ordering::Relaxed) }
+pub fn max_alloc_reset() { MAX_ALLOC.store(0, Ordering::Relaxed); }
+
 // ---- watchdog ------------------------------------------------------------------------------
 static CASE_START_CPU_MS: AtomicU64 = AtomicU64::new(u64::MAX);
 static CASE_CPU_LIMIT_MS: AtomicU64 = AtomicU64::new(60_000);
